@@ -74,7 +74,11 @@ fn main() {
     }
     core::start_watchdog(ctx.clone());
     // 1. regression files (every shrunk failure ever found), then the property's own stages
-    props::replay_regressions(&ctx, prop);
+    // (VERIF_NO_REGRESS=1 is a developer switch used by the sensitivity tests: it shows what the
+    // generators find on their own, without the saved regression inputs)
+    if std::env::var("VERIF_NO_REGRESS").is_err() {
+        props::replay_regressions(&ctx, prop);
+    }
     (prop.run)(&ctx);
     let extra = (prop.extra)(&ctx);
     let code = ctx.finish(prop.rule, prop.assumptions, extra);
